@@ -445,11 +445,11 @@ def sweep_blocks(spec, solo, set_id=None):
              depth 2 = ... b is stopped before its k-th g-line, a finishes, then b                  (H_a[g] * H_b[g])."""
     foci = []
     for f in FOCI_BY_STRATUM[spec["stratum"]]:
-        if f != "all" and f not in foci and solo["groups"].get(f, 0) > 0:
-            foci.append(f)
+        if f != "all" and solo["groups"].get(f, 0) > 0:
+            foci.append(f)      # (repeated entries = weights: the stratum's own group gets more of the sets)
     d1, d2 = [], []
     # one focus group per set (sets cycle through the groups of their stratum), so the per-set budget goes into ONE space
-    for f in (foci if set_id is None else [foci[set_id % len(foci)]] if foci else []):
+    for f in (sorted(set(foci)) if set_id is None else [foci[set_id % len(foci)]] if foci else []):
         for oi, (a, b) in enumerate(((0, 1), (1, 0))):
             ha, hb = solo["task_groups"][a].get(f, 0), solo["task_groups"][b].get(f, 0)
             if ha > 0:
@@ -474,7 +474,13 @@ def sweep_pick(j, K, d1, d2):
     if t1 == 0:
         return None
     if t1 >= K:
-        return locate(d1, (j * t1) // K)
+        # depth 1 alone exceeds the budget: every block (start order) gets an equal share, spent on its first offsets -
+        # which are the stops at distinct lines (sites first, see sweep_plan)
+        per = max(1, K // len(d1))
+        bi, off = j // per, j % per
+        if bi >= len(d1) or off >= d1[bi][3]:
+            return None
+        return d1[bi], off
     if j < t1:
         return locate(d1, j)
     j2, left = j - t1, K - t1
@@ -503,7 +509,16 @@ def sweep_plan(ch, j, spec, solo, K, set_id=None):
         return None, foci
     if forced is not None:
         (f, oi, depth, ha, hb), off = forced
-        v = [foci.index(f), depth - 1, oi, off // hb, off % hb]
+        fi_ = foci.index(f)
+        v = [fi_, depth - 1, oi, off // hb, off % hb]
+        if depth == 1:
+            # depth 1 is enumerated SITES FIRST: the stops before the first execution of each distinct file:line of the
+            # group come before the stops at repeated executions (a one-line window is a property of the line), so a
+            # budget smaller than the space still covers every line once
+            a_ = ((0, 1), (1, 0))[oi][0]
+            firsts = [c for c in solo["task_first_sites"][a_].get(f, []) if 1 <= c <= ha]
+            rest = [c for c in range(1, ha + 1) if c not in set(firsts)]
+            v[3] = (firsts + rest)[off] - 1
     else:
         v = [0, 0, 0, 0, 0]
     focus = foci[ch.draw_or(v[0], len(foci), "sw_focus")]
@@ -547,7 +562,8 @@ def run(ch, params, decoded=False):
             setup, s, results = run_tasks(spec, knobs, {"kind": "serial", "order": list(range(n))})
             out = {"results": results, "steps": [t.steps for t in s.tasks], "shared": [t.shared_steps for t in s.tasks],
                    "groups": dict(zip(schedmod.GROUPS, s.group_counts)), "end": setup.end_state(),
-                   "task_groups": [dict(zip(schedmod.GROUPS, t.group_counts)) for t in s.tasks]}
+                   "task_groups": [dict(zip(schedmod.GROUPS, t.group_counts)) for t in s.tasks],
+                   "task_first_sites": [dict(zip(schedmod.GROUPS, t.first_sites)) for t in s.tasks]}
             setup.cleanup()
         except BaseException as e:
             out = {"harness_error": repr(e), "tb": traceback.format_exc()[-2000:]}
@@ -591,6 +607,11 @@ def run(ch, params, decoded=False):
             K = sweep["per_set"]
             t1 = sum(b[3] for b in d1)
             stats["sweep:sets"] = 1
+            stats["sweep:distinct_lines_of_the_focus_group_in_both_tasks"] = sum(
+                len(solo["task_first_sites"][k_].get(plan["focus"], [])) for k_ in (0, 1))
+            stats["sweep:sets_every_line_of_the_group_preempted_once_per_order"] = int(all(
+                len(solo["task_first_sites"][((0, 1), (1, 0))[b[1]][0]].get(plan["focus"], [])) <= max(1, K // max(1, len(d1)))
+                for b in d1) or t1 <= K)
             stats["sweep:sets_depth1_space_enumerated_completely:" + plan["focus"]] = int(t1 <= K)
             left = K - t1
             for b in sorted(d2, key=lambda b: (b[3] * b[4], b[0], b[1])):
